@@ -139,12 +139,20 @@ fn run_block(lines: &[String], out: &mut Out) {
             let _ = h.join();
         }
     } else {
-        // let the stuck threads run freely to their end so the next scenario starts clean
-        s.inner.lock().unwrap().abort = true;
-        s.cv.notify_all();
-        for h in handles {
-            let _ = h.join();
+        // the scenario did not finish within its step budget (a thread waits for something that
+        // never happens, e.g. a wedged write barrier): report what happened and leave the process
+        // - the stuck threads cannot be torn down, the caller re-runs the remaining scenarios
+        let g = s.inner.lock().unwrap();
+        for l in g.log.iter() {
+            out.line(l);
         }
+        let sch: Vec<String> = g.schedule.iter().map(|t| t.to_string()).collect();
+        out.line(&format!("SCHEDULE {}", sch.join(" ")));
+        out.line(&format!("END {}", status));
+        out.line("---");
+        out.line("ABANDONED");
+        out.flush();
+        std::process::exit(0);
     }
     let g = s.inner.lock().unwrap();
     for l in g.log.iter() {
@@ -167,6 +175,7 @@ pub fn main() -> i32 {
             if !block.is_empty() {
                 run_block(&block, &mut out);
                 out.line("---");
+                out.flush();
                 block.clear();
             }
         } else {
